@@ -57,7 +57,7 @@ Proof.
   unfold process_delta.
   set (parent := match oh_type d with TOfs => _ | _ => _ end).
   destruct parent as [[[[pt pc] pd] s1]|] eqn:Ep; [|discriminate].
-  destruct (MAX_DEPTH <? pd + 1); [discriminate|].
+  destruct (chain_depth pd) as [depth|]; [|discriminate].
   destruct (oh_data d) as [|x dd] eqn:Edata; [discriminate|]. rewrite <- Edata.
   destruct (apply_delta pc (oh_data d)) as [[tsz out]|]; [|discriminate].
   intros E; inversion E; subst; clear E. cbn [p_oi p_done].
